@@ -3,6 +3,7 @@ package interp
 import (
 	"bytes"
 	"context"
+	"strconv"
 	"strings"
 
 	"mvdan.cc/sh/v3/syntax"
@@ -13,6 +14,22 @@ import (
 type flowNode struct {
 	kind int
 	kids []*flowNode
+	name string // of the function, for flowCall
+}
+
+// defs numbers the functions and returns their definitions, inner ones first.
+func (n *flowNode) defs(count *int) string {
+	out := ""
+	for _, k := range n.kids {
+		out += k.defs(count)
+	}
+	if n.kind == flowCall {
+		*count++
+		n.name = "f" + string(rune('0'+*count))
+		// loop counters of the body get names of their own
+		out += n.name + "() { " + n.kids[0].textAt(10**count) + "; }\n"
+	}
+	return out
 }
 
 const (
@@ -23,12 +40,15 @@ const (
 	flowBreak2
 	flowCont
 	flowCont2
+	flowRet  // return (the status of the last command)
+	flowRet1 // return 1
 	flowNot
 	flowSub
 	flowFor
 	flowCFor  // for ((j=0; j<2; j++))
 	flowWhile // w=0; while [ $((w+=1)) -le 2 ]
 	flowRedir // { ...; } </nonexistent/f : the group is not run
+	flowCall  // a call of a function whose body is the kid
 	flowAnd
 	flowOr
 	flowIf
@@ -37,7 +57,7 @@ const (
 	flowKinds
 )
 
-var flowArity = [flowKinds]int{0, 0, 0, 0, 0, 0, 0, 1, 1, 1, 1, 1, 1, 2, 2, 2, 2, 3}
+var flowArity = [flowKinds]int{0, 0, 0, 0, 0, 0, 0, 0, 0, 1, 1, 1, 1, 1, 1, 1, 2, 2, 2, 2, 3}
 
 // verifFlowGen builds a tree of at most budget nodes from choices made by pick;
 // ok is false when the chosen kind does not fit the budget. Every tree of up
@@ -65,8 +85,11 @@ func verifFlowGen(budget int, path string, pick func(id string, n int) int) (n *
 // hasDoubleNot: "! !", which the parser under test rejects, or a negated
 // command whose redirection fails, which bash does not negate.
 func (n *flowNode) hasDoubleNot() bool {
-	if n.kind == flowNot && (n.kids[0].kind == flowNot || n.kids[0].kind == flowRedir) {
-		return true
+	if n.kind == flowNot {
+		switch n.kids[0].kind {
+		case flowNot, flowRedir, flowRet, flowRet1: // "! return" is not modelled
+			return true
+		}
 	}
 	for _, k := range n.kids {
 		if k.hasDoubleNot() {
@@ -104,7 +127,7 @@ func (n *flowNode) text() string { return n.textAt(0) }
 
 // textAt: d is the number of enclosing loops, used to name loop counters.
 func (n *flowNode) textAt(d int) string {
-	dd := string(rune('0' + d))
+	dd := strconv.Itoa(d)
 	wrap := func(k *flowNode, always bool) string {
 		if k.kind == flowSeq || k.kind == flowWhile || (always && k.isList()) {
 			return "{ " + k.textAt(d) + "; }"
@@ -126,6 +149,12 @@ func (n *flowNode) textAt(d int) string {
 		return "continue"
 	case flowCont2:
 		return "continue 2"
+	case flowRet:
+		return "return"
+	case flowRet1:
+		return "return 1"
+	case flowCall:
+		return n.name
 	case flowNot:
 		return "! " + wrap(n.kids[0], true)
 	case flowSub:
@@ -164,10 +193,16 @@ type refFlow struct {
 	exited  bool
 	status  int
 	outside bool // a case the reference does not model
-	errTrap bool // trap 'echo T' ERR is set (not inherited by subshells)
+	errTrap bool // trap 'echo T' ERR is set (not inherited by subshells and functions)
+	inFunc  bool
+	ret     bool // a return is unwinding to its function
+	retSt   int
+	last    int // $?
 }
 
-func (s *refFlow) unwinding() bool { return s.exited || s.brk > 0 || s.cont > 0 || s.outside }
+func (s *refFlow) unwinding() bool {
+	return s.exited || s.brk > 0 || s.cont > 0 || s.outside || s.ret
+}
 
 // fail applies set -e to a command that finished with a non-zero status.
 func (s *refFlow) fail(st int, ignore bool) {
@@ -182,7 +217,37 @@ func (s *refFlow) fail(st int, ignore bool) {
 }
 
 func (s *refFlow) run(n *flowNode, ignore bool) int {
+	st := s.run1(n, ignore)
+	s.last = st
+	return st
+}
+
+func (s *refFlow) run1(n *flowNode, ignore bool) int {
 	switch n.kind {
+	case flowRet, flowRet1:
+		if !s.inFunc {
+			s.outside = true // an error message
+			return 0
+		}
+		s.ret, s.retSt = true, s.last
+		if n.kind == flowRet1 {
+			s.retSt = 1
+		}
+		return s.retSt
+	case flowCall:
+		depth, inFunc, errTrap := s.depth, s.inFunc, s.errTrap
+		s.depth, s.inFunc, s.errTrap = 0, true, false
+		st := s.run(n.kids[0], ignore)
+		s.depth, s.inFunc, s.errTrap = depth, inFunc, errTrap
+		if s.ret {
+			s.ret = false
+			st = s.retSt
+		}
+		if s.exited || s.outside {
+			return st
+		}
+		s.fail(st, ignore)
+		return st
 	case flowTrue:
 		return 0
 	case flowFalse:
@@ -215,7 +280,7 @@ func (s *refFlow) run(n *flowNode, ignore bool) int {
 			return 0
 		}
 		st := s.run(n.kids[0], true)
-		if s.exited || s.outside {
+		if s.exited || s.outside || s.ret {
 			return st
 		}
 		// the status of break and continue is inverted as well
@@ -259,7 +324,7 @@ func (s *refFlow) run(n *flowNode, ignore bool) int {
 		st := 0
 		for i := 0; i < 2; i++ {
 			st = s.run(n.kids[0], ignore)
-			if s.exited || s.outside {
+			if s.exited || s.outside || s.ret {
 				break
 			}
 			if s.brk > 0 {
@@ -282,9 +347,12 @@ func (s *refFlow) run(n *flowNode, ignore bool) int {
 			s.outside = true
 			return 0
 		}
-		c := &refFlow{out: s.out, errexit: s.errexit}
+		c := &refFlow{out: s.out, errexit: s.errexit, inFunc: s.inFunc, last: s.last}
 		st := c.run(n.kids[0], ignore)
 		s.out = c.out
+		if c.ret { // a return ends the subshell
+			st = c.retSt
+		}
 		if c.outside {
 			s.outside = true
 			return 0
@@ -317,6 +385,8 @@ func refFlowProgram(n *flowNode, errexit bool, trap int) (src, out string, statu
 	case 2:
 		src += "trap 'echo X' EXIT\n"
 	}
+	count := 0
+	src += n.defs(&count)
 	src += n.text() + "\necho end $?\n"
 	s := &refFlow{errexit: errexit, errTrap: trap == 1}
 	st := s.run(n, false)
